@@ -56,6 +56,10 @@ def combine_latest_(*sources: Observable[Any]) -> Observable[tuple[Any, ...]]:
             if all(is_done):
                 observer.on_completed()
 
+        def on_error(error: Exception) -> None:
+            with lock:
+                observer.on_error(error)
+
         subscriptions = [SingleAssignmentDisposable() for _ in range(n)]
 
         def func(i: int) -> None:
@@ -69,7 +73,7 @@ def combine_latest_(*sources: Observable[Any]) -> Observable[tuple[Any, ...]]:
                     done(i)
 
             subscriptions[i].disposable = sources[i].subscribe(
-                on_next, observer.on_error, on_completed, scheduler=scheduler
+                on_next, on_error, on_completed, scheduler=scheduler
             )
 
         for idx in range(n):
